@@ -12,6 +12,8 @@ Deciding monitors
       and both fixed-sampling methods; a displaced focal spot unfocuses to the pupil tilt with that slope.
   M3  contracts on Q_for_sampling / pupil_sample_to_psf_sample / psf_sample_to_pupil_sample: closed forms and
       exact inverse round trip.
+  Histories at fixed array sizes on the shared executors (every step judged by M1, which knows nothing of the process
+  history), repeat / aliasing laws (same argument objects again; containers; memory layouts), both precisions and mixed.
 """
 import math
 
@@ -20,26 +22,41 @@ import numpy as np
 from ..contracts import attach, detach_all
 from ..core import parity
 from ..refmodels import diffraction as D
+from .c01 import (_copyarg, _same, _same_value, conf_bits, is_single, kernel_phase, low_precision, rtol_for, relayout, LAYOUTS,
+                  SHIFT_CONTAINERS, make_container, container_values)
 
-RULE = ('input classes enumerated (pupil/focal array: square even/odd, non-square in the four parity combinations; '
-        'output: square even/odd, non-square; method mdft/czt; shift none/integer/fractional output samples; field '
-        'random complex or uniform+tilt / displaced spot), smallest sizes first; sizes 4..33, output samples 8..96, '
-        'wavelength/focal length/spacings log-uniform, requested spacing 0.2x..3x critical; FFT route on every square '
-        'N in 4..33 x Q in {1,2,3,4,1.5,2.5}.  Non-trivial: the field has >= 2 non-zero samples (always true here); '
-        'distinct = distinct descriptor (class, shapes, physical scalars, tilt/shift, sub-seed).')
+RULE = ('input classes enumerated (pupil/focal array: square even/odd, non-square in the four parity combinations, 1xN / Nx1, '
+        'extreme aspect 2xN / Nx3; output: square even/odd, non-square; method mdft/czt; shift none/integer/fractional output samples; '
+        'field random complex / real / integer / boolean or uniform+tilt / displaced spot), smallest sizes first; sizes 4..33 (thorough '
+        '..64), output samples 8..96 (thorough ..192), wavelength/focal length/spacings log-uniform, requested spacing 0.2x..3x critical; '
+        'FFT route on every square N in 4..33 (thorough ..64) x Q in {1,2,3,4,1.5,2.5}; one case in four runs in the float32 '
+        'configuration, with complex64 data, or mixed.  Histories: 3..14 fixed-sampling / to_fpm_and_back calls at FIXED array sizes '
+        '(function and Wavefront form, both methods, shifted and unshifted, new physical scalars every step, precision switches), the '
+        'last step float64.  Repeat cases: the same call again with the same argument objects (shift as tuple / list / float64, float32, '
+        'int ndarray / numpy scalars; samples as int / tuple / numpy integers; data in six memory layouts).  Non-trivial: the field has '
+        '>= 2 non-zero samples; distinct = distinct descriptor (class, shapes, physical scalars, tilt/shift, sub-seed).')
 ASSUMPTIONS = ['Fraunhofer model: E(X,Y) = sum a_j exp(-2 pi i (x_j X + y_j Y)/(lambda f)) with pupil samples at '
                '(index - n//2)*dx; units mm (pupil, f) and um (focal plane, lambda) as documented by prysm',
+               'the model is evaluated on the argument values before the call (pre-hook snapshots)',
                'overall complex scale of a propagation is not judged here (C01/C02); with shift != 0 only moduli are compared',
                'output_samples tuples are (rows, columns) as implemented (the Wavefront docstring says (x, y))',
                'a shift moves the image by +shift in output units (the sign both methods implement and the docstring '
                '"shift of the output domain" describes)',
                'FFT route judged on square arrays only: a Wavefront carries a single dx',
+               'float64: 1e-9 of the fitted reference maximum, raised for large arrays to 1000 eps64 * kernel phase of the bound |c| sum|w|; '
+               'single precision (complex64 data, float32 configuration for mdft and for the reported coordinate grids, float32 shift '
+               'container): max(1e-3, 1000 eps32 * kernel phase) of that bound (C01\'s rule), calls whose tolerance would exceed 3e-2 '
+               'excluded and counted; fitted slopes 1e-9 rad / 2e-3 rad (float32 round-off measured <= 1.5e-6)',
+               'integer / boolean arrays are real fields (mdft and FFT route; czt on integer input is C01\'s ledgered finding and is not judged here)',
+               'repeat laws: deterministic routines, a later call with the same argument objects reproduces the first to 10 eps; results '
+               'are copied as soon as they are returned',
                'numpy matmul / exp in float64 and long-double phase reduction in the reference model']
 REQUIRED = ['focus_fixed_sampling.field-at-requested-coordinates', 'unfocus_fixed_sampling.field-at-requested-coordinates',
             'Wavefront.focus.field-at-reported-coordinates', 'Wavefront.unfocus.field-at-reported-coordinates',
             'tilt->displacement.fft', 'tilt->displacement.fixed', 'shift-translates-image', 'spot->tilt.fft',
             'spot->tilt.fixed', 'Q_for_sampling.closed-form', 'pupil_sample_to_psf_sample.closed-form',
-            'psf_sample_to_pupil_sample.closed-form', 'spacing.roundtrip']
+            'psf_sample_to_pupil_sample.closed-form', 'spacing.roundtrip', 'history.ops', 'repeat.same-objects',
+            'alias.container-independence']
 
 RTOL = 1e-9
 CTX = None
@@ -116,11 +133,32 @@ def _merge(desc):
 FF_NAMES = ['wavefunction', 'input_dx', 'prop_dist', 'wavelength', 'output_dx', 'output_samples', 'shift', 'method']
 
 
+def _tolerance(method, w, idx, odx, wvl, efl, samples, shift_samples, shift_container, scale, c):
+    """(tol, single): float64 -- RTOL of the fitted reference maximum (raised with the kernel phase for large arrays).  Single precision (complex64 data, the float32
+    configuration for mdft, a float32 shift container) -- C01's rule: max(1e-3, 1000 eps32 * kernel phase) of the bound
+    |c| * sum|w| on every output sample; (None, True) when that would exceed 3e-2 (ill-conditioned in float32: skip + count)."""
+    single = is_single(w.dtype) or (method == 'mdft' and conf_bits() == 32) or low_precision(shift_container)
+    Qp = tuple(wvl * efl / (n * idx * odx) for n in w.shape)
+    if not single:
+        # RTOL of the fitted maximum; for large arrays (chirp phases of 1e4 rad) raised to 1000 eps64 * kernel phase of the bound
+        # |c| sum|w| so that the threshold stays >= 3 decades above round-off (C01's conditioning rule)
+        phi = kernel_phase(method, w.shape, Qp, samples, shift_samples)
+        return max(RTOL * scale, 1000 * float(np.finfo(np.float64).eps) * phi * abs(c) * float(np.sum(np.abs(w)))), False
+    r = rtol_for(method, True, w.shape, Qp, samples, shift_samples)
+    if r is None:
+        return None, True
+    return r * abs(c) * float(np.sum(np.abs(w))), True
+
+
 def _check_fixed(route, a, out):
     w = np.asarray(a['wavefunction'])
     method = a['method']
-    if w.ndim != 2 or method not in ('mdft', 'czt'):
+    if w.ndim != 2 or method not in ('mdft', 'czt') or w.dtype.kind not in 'fciub':
         return
+    if w.dtype.kind in 'iub':
+        if method == 'czt':
+            return             # integer / boolean arrays through czt: C01's ledgered finding (chirps built in the input dtype)
+        w = w.astype(np.float64)
     samples = tuple(int(s) for s in _pair(a['output_samples']))
     sx, sy = (float(s) for s in _pair(a['shift']))
     idx, odx = float(a['input_dx']), float(a['output_dx'])
@@ -128,7 +166,8 @@ def _check_fixed(route, a, out):
     shifted = (sx != 0) or (sy != 0)
     monitor = f'{route}_fixed_sampling.field-at-requested-coordinates'
     desc = _merge({'fn': f'{route}_fixed_sampling', 'in_shape': w.shape, 'input_dx': idx, 'prop_dist': efl,
-                   'wavelength': wvl, 'output_dx': odx, 'output_samples': samples, 'shift': (sx, sy), 'method': method})
+                   'wavelength': wvl, 'output_dx': odx, 'output_samples': samples, 'shift': (sx, sy), 'method': method,
+                   'dtype': str(w.dtype), 'precision': conf_bits()})
     if not np.any(w):
         CTX.skip('zero-field')
         return
@@ -146,29 +185,59 @@ def _check_fixed(route, a, out):
         CTX.skip('reference-field-vanishes')
         return
     err, scale, c = D.scale_free_error(out, ref, modulus=shifted)
-    if not (scale > 0 and err <= RTOL * scale):
-        CTX.violation(key, _what(route, method, g), desc, err=err, scale=scale, fitted_scale=c,
+    tol, single = _tolerance(method, w, idx, odx, wvl, efl, samples, (sx / odx, sy / odx), a['shift'], scale, c)
+    if tol is None:
+        CTX.observe(monitor, -1)
+        CTX.skip('float32: kernel phase beyond the resolution of the working precision (tolerance would exceed 3e-2)')
+        return
+    if not (scale > 0 and err <= tol):
+        CTX.violation(key, _what(route, method, g), desc, err=err, scale=scale, tol=tol, fitted_scale=c,
                       compared='moduli' if shifted else 'complex')
     else:
-        _track(f'{monitor}[{method}]', err, scale)
+        _track(f'{monitor}[{method}{"/f32" if single else ""}]', err, tol / RTOL if single else scale)
+
+
+def _pre_fixed(args, kwargs):
+    """Values of all arguments before the call: the model is evaluated on these."""
+    a = _bind(FF_NAMES, {'shift': (0, 0), 'method': 'mdft'}, args, kwargs)
+    return {k: _copyarg(v) for k, v in a.items()}
+
+
+def _note_mutation(fn, token, args, kwargs):
+    now = _bind(FF_NAMES, {'shift': (0, 0), 'method': 'mdft'}, args, kwargs)
+    for k, v in token.items():
+        if isinstance(v, (np.ndarray, list)) and not _same_value(now.get(k), v):
+            CTX.event(f'argument-mutated-in-place:{fn}:{k}')      # evidence only; the repeat laws judge the later call
 
 
 def post_focus_fixed(token, args, kwargs, result):
-    _check_fixed('focus', _bind(FF_NAMES, {'shift': (0, 0), 'method': 'mdft'}, args, kwargs), result)
+    _note_mutation('focus_fixed_sampling', token, args, kwargs)
+    _check_fixed('focus', token, result)
 
 
 def post_unfocus_fixed(token, args, kwargs, result):
-    _check_fixed('unfocus', _bind(FF_NAMES, {'shift': (0, 0), 'method': 'mdft'}, args, kwargs), result)
+    _note_mutation('unfocus_fixed_sampling', token, args, kwargs)
+    _check_fixed('unfocus', token, result)
 
 
 def _qclass(Q):
     return 'Q-int' if float(Q) == int(Q) else 'Q-frac'
 
 
-def _check_fft(route, self, efl, Q, result):
-    a = np.asarray(self.data)
+def _pre_wf(args, kwargs):
+    self = args[0] if args else kwargs.get('self')
+    d = getattr(self, 'data', None)
+    return np.array(d, copy=True) if isinstance(d, np.ndarray) else d
+
+
+def _check_fft(route, self, efl, Q, result, data_before):
+    a = np.asarray(data_before)
     monitor = f'Wavefront.{route}.field-at-reported-coordinates'
-    if a.ndim != 2 or a.shape[0] != a.shape[1]:
+    if a.ndim != 2 or a.dtype.kind not in 'fciub':
+        return
+    if a.dtype.kind in 'iub':
+        a = a.astype(np.float64)
+    if a.shape[0] != a.shape[1]:
         CTX.skip('fft-route-nonsquare(one dx cannot describe two axes)')
         return
     out = np.asarray(result.data)
@@ -190,21 +259,24 @@ def _check_fft(route, self, efl, Q, result):
         CTX.skip('reference-field-vanishes')
         return
     err, scale, c = D.scale_free_error(out, ref)
-    if not (scale > 0 and err <= RTOL * scale):
+    single = is_single(a.dtype) or conf_bits() == 32      # float32 configuration: the reported coordinate grids are float32
+    # single precision: FFT round-off / coordinate rounding ~ eps32 * phase of the bound |c| sum|a| on every output sample (1e-3 is >= 3 decades above)
+    tol = 1e-3 * abs(c) * float(np.sum(np.abs(a))) if single else RTOL * scale
+    if not (scale > 0 and err <= tol):
         CTX.violation(key, f'Wavefront.{route} (FFT route): the field at the reported coordinates (reported dx) is not the '
-                           f'diffraction integral at those places', desc, err=err, scale=scale, fitted_scale=c)
+                           f'diffraction integral at those places', desc, err=err, scale=scale, tol=tol, fitted_scale=c)
     else:
-        _track(monitor, err, scale)
+        _track(monitor + ('/f32' if single else ''), err, tol / RTOL if single else scale)
 
 
 def post_wf_focus(token, args, kwargs, result):
     a = _bind(['self', 'efl', 'Q'], {'Q': 2}, args, kwargs)
-    _check_fft('focus', a['self'], a['efl'], a['Q'], result)
+    _check_fft('focus', a['self'], a['efl'], a['Q'], result, token)
 
 
 def post_wf_unfocus(token, args, kwargs, result):
     a = _bind(['self', 'efl', 'Q'], {'Q': 2}, args, kwargs)
-    _check_fft('unfocus', a['self'], a['efl'], a['Q'], result)
+    _check_fft('unfocus', a['self'], a['efl'], a['Q'], result, token)
 
 
 def _scalar_close(monitor, got, ref, key, what, desc):
@@ -252,10 +324,17 @@ def install():
     attach(propagation, 'Q_for_sampling', post=post_Q_for_sampling)
     attach(propagation, 'pupil_sample_to_psf_sample', post=post_pupil_to_psf)
     attach(propagation, 'psf_sample_to_pupil_sample', post=post_psf_to_pupil)
-    attach(propagation, 'focus_fixed_sampling', post=post_focus_fixed)
-    attach(propagation, 'unfocus_fixed_sampling', post=post_unfocus_fixed)
-    attach(propagation.Wavefront, 'focus', post=post_wf_focus)
-    attach(propagation.Wavefront, 'unfocus', post=post_wf_unfocus)
+    attach(propagation, 'focus_fixed_sampling', pre=_pre_fixed, post=post_focus_fixed)
+    attach(propagation, 'unfocus_fixed_sampling', pre=_pre_fixed, post=post_unfocus_fixed)
+    attach(propagation.Wavefront, 'focus', pre=_pre_wf, post=post_wf_focus)
+    attach(propagation.Wavefront, 'unfocus', pre=_pre_wf, post=post_wf_unfocus)
+
+
+def install_monitors(ctx):
+    """Attach the contracts for the repository's own test traffic (vp/pytest_monitors.py)."""
+    global CTX
+    CTX = ctx
+    install()
 
 
 # ------------------------------------------------------------------------------------------ generators
@@ -279,7 +358,7 @@ def with_parity(n, par, lo, hi):
     return n
 
 
-IN_CLASSES = ['sq:e', 'sq:o', 'nonsq:ee', 'nonsq:eo', 'nonsq:oe', 'nonsq:oo', 'line:1xN', 'line:Nx1']
+IN_CLASSES = ['sq:e', 'sq:o', 'nonsq:ee', 'nonsq:eo', 'nonsq:oe', 'nonsq:oo', 'line:1xN', 'line:Nx1', 'extreme:2xN', 'extreme:Nx3']
 OUT_CLASSES = ['sq:e', 'sq:o', 'nonsq']
 METHODS = ['mdft', 'czt']
 SHIFTS = ['0', 'int', 'frac']
@@ -298,6 +377,10 @@ def draw_shape(rng, cls, lo, hi):
         return (1, int(rng.integers(lo, hi + 1)))
     if cls == 'line:Nx1':
         return (int(rng.integers(lo, hi + 1)), 1)
+    if cls == 'extreme:2xN':                      # extreme aspect ratio: two rows, as many columns as the round allows
+        return (2, int(rng.integers(max(lo, hi - 4), hi + 1)))
+    if cls == 'extreme:Nx3':
+        return (int(rng.integers(max(lo, hi - 4), hi + 1)), 3)
     p0, p1 = cls[-2], cls[-1]
     while True:
         s = (with_parity(int(rng.integers(lo, hi + 1)), p0, lo, hi), with_parity(int(rng.integers(lo, hi + 1)), p1, lo, hi))
@@ -309,10 +392,13 @@ def cnormal(rng, shape):
     return rng.standard_normal(shape) + 1j * rng.standard_normal(shape)
 
 
-def field_array(seed, shape, k):
-    """Random field regenerated from the sub-seed: complex, or (every 6th case) real-valued."""
+def field_array(seed, shape, k, method='mdft'):
+    """Random field regenerated from the sub-seed: complex, or (every 6th case) real-valued -- of which every other one is an
+    integer or boolean image (a 0/1 aperture mask) when the route is mdft (czt on integer input is C01's ledgered finding)."""
     r = np.random.default_rng(seed)
     if k % 6 == 5:        # k: per-case variant number
+        if (k // 6) % 2 and method == 'mdft':
+            return (r.random(shape) < 0.7) if (k // 12) % 2 else r.integers(0, 5, shape)
         return r.standard_normal(shape)
     return cnormal(r, shape)
 
@@ -353,17 +439,28 @@ def _clear_caches():
 
 
 def _run(ctx):
-    wl_helpers(ctx)
-    wl_fft(ctx)
-    wl_fixed(ctx, 'focus')
-    wl_fixed(ctx, 'unfocus')
+    import time
+    secs = {}
+
+    def timed(name, f, *a):
+        t = time.time()
+        f(*a)
+        secs[name] = round(time.time() - t, 1)
+    timed('helpers', wl_helpers, ctx)
+    timed('fft', wl_fft, ctx)
+    timed('fixed-focus', wl_fixed, ctx, 'focus')
+    timed('fixed-unfocus', wl_fixed, ctx, 'unfocus')
+    _clear_caches()
+    timed('history', wl_history, ctx)
+    timed('repeat', wl_repeat, ctx)
+    ctx.note('workload_seconds(first shard)', secs)
     _clear_caches()
 
 
 def wl_helpers(ctx):
     global CUR
     from prysm import propagation as P
-    n = ctx.pick(240, 8000)
+    n = ctx.pick(240, 48000)
     for k in range(n):
         if not ctx.mine(k):
             continue
@@ -412,10 +509,10 @@ def wl_fft(ctx):
     global CUR
     from prysm import propagation as P
     Qs = [1, 2, 3, 4, 1.5, 2.5]
-    reps = ctx.pick(1, 8)
+    reps = ctx.pick(1, 12)
     k = -1
     for rep in range(reps):
-        for N in range(4, 34):
+        for N in range(4, ctx.pick(34, 65)):
             for Q in Qs:
                 for route in ('focus', 'unfocus'):
                     for field in ('random', 'tilt'):
@@ -453,23 +550,30 @@ def wl_fft(ctx):
 
 def _fft_focus_case(ctx, P, desc, key, N, Q, Npad, field, wvl, efl, dx, kx, ky, seed):
     from prysm.coordinates import make_xy_grid
+    from ..util import precision
+    bits, dbits = precision_class(seed)
+    desc.update(precision=bits, data_bits=dbits)
     if field == 'random':
-        a = cnormal(np.random.default_rng(seed), (N, N))
-        P.Wavefront(a, wvl, dx).focus(efl, Q)            # judged by the contract (M1)
+        a = to_bits(cnormal(np.random.default_rng(seed), (N, N)), dbits)
+        with precision(bits):
+            P.Wavefront(a, wvl, dx).focus(efl, Q)            # judged by the contract (M1)
         return
     Dw = N * dx
     x, y = make_xy_grid((N, N), dx=dx)
     opd = (kx * x + ky * y) / Dw * wvl * 1e3             # nm: k waves across the width D
     wf = P.Wavefront.from_amp_and_phase(np.ones((N, N)), opd, wvl, dx)
-    out = wf.focus(efl, Q)
+    wf.data = to_bits(wf.data, dbits)
+    with precision(bits):
+        out = wf.focus(efl, Q)
+        inten = out.intensity
+        gx_, gy_ = np.asarray(inten.x), np.asarray(inten.y)
     ex, ey = D.tilt_displacement(kx, Dw, wvl, efl), D.tilt_displacement(ky, Dw, wvl, efl)
     if (kx * Npad) % N or (ky * Npad) % N:
         ctx.skip('tilt->displacement.fft: spot between samples (judged by M1 only)')
         return
-    inten = out.intensity
     iy, ix = _peak(out.data)
-    px, py = float(inten.x[iy, ix]), float(inten.y[iy, ix])
-    tol = 1e-9 * abs(float(out.dx)) * Npad
+    px, py = float(gx_[iy, ix]), float(gy_[iy, ix])
+    tol = (1e-9 if bits == 64 else 1e-4) * abs(float(out.dx)) * Npad      # the reported grid is float32 in the float32 configuration
     ok = abs(px - ex) <= tol and abs(py - ey) <= tol
     ctx.require('tilt->displacement.fft', ok, key,
                 'Wavefront.focus: a pupil with k waves of tilt does not peak at k*lambda*f/D in the reported coordinates',
@@ -477,21 +581,27 @@ def _fft_focus_case(ctx, P, desc, key, N, Q, Npad, field, wvl, efl, dx, kx, ky, 
 
 
 def _fft_unfocus_case(ctx, P, desc, key, N, Q, Npad, field, wvl, efl, dx, kx, ky, seed):
+    from ..util import precision
     dxp = dx * 1e3 * 0.01          # a focal-plane spacing in microns
+    bits, dbits = precision_class(seed)
+    desc.update(precision=bits, data_bits=dbits)
     if field == 'random':
-        a = cnormal(np.random.default_rng(seed), (N, N))
-        P.Wavefront(a, wvl, dxp, space='psf').unfocus(efl, Q)
+        a = to_bits(cnormal(np.random.default_rng(seed), (N, N)), dbits)
+        with precision(bits):
+            P.Wavefront(a, wvl, dxp, space='psf').unfocus(efl, Q)
         return
-    a = np.zeros((N, N), dtype=complex)
+    a = np.zeros((N, N), dtype=np.complex64 if dbits == 32 else complex)
     a[N // 2 + ky, N // 2 + kx] = 1.0
-    out = P.Wavefront(a, wvl, dxp, space='psf').unfocus(efl, Q)
+    with precision(bits):
+        out = P.Wavefront(a, wvl, dxp, space='psf').unfocus(efl, Q)
     # spot at (X0, Y0) = (kx, ky)*dxp -> pupil tilt exp(2 pi i (x X0 + y Y0)/(lambda f)), read with the reported dx
     sx_ref = 2 * math.pi * (kx * dxp) * float(out.dx) / (wvl * efl)
     sy_ref = 2 * math.pi * (ky * dxp) * float(out.dx) / (wvl * efl)
     if max(abs(sx_ref), abs(sy_ref)) > 0.95 * math.pi:
         ctx.skip('spot->tilt: slope aliased')
         return
-    ok = _wrapdiff(_slope(out.data, 1), sx_ref) <= 1e-9 and _wrapdiff(_slope(out.data, 0), sy_ref) <= 1e-9
+    stol = SLOPE_TOL[dbits == 32]
+    ok = _wrapdiff(_slope(out.data, 1), sx_ref) <= stol and _wrapdiff(_slope(out.data, 0), sy_ref) <= stol
     ctx.require('spot->tilt.fft', ok, key,
                 'Wavefront.unfocus: a displaced focal spot does not return the pupil tilt 2*pi*X0/(lambda f) per mm at the reported dx',
                 desc, slope_xy=(_slope(out.data, 1), _slope(out.data, 0)), expected=(sx_ref, sy_ref), reported_dx=float(out.dx))
@@ -501,13 +611,14 @@ def wl_fixed(ctx, route):
     """Fixed-sampling routes over the class grid; M1 is evaluated by the contract on every call, M2 here."""
     global CUR
     from prysm import propagation as P
-    rounds = ctx.pick(8, 160)
+    rounds = ctx.pick(8, 360)
     tag = 3 if route == 'focus' else 4
     k = -1
     done = 0
     for rnd in range(rounds):
-        hi_in = [9, 16, 33][min(rnd, 2)]           # smallest first
-        hi_out = [24, 48, 96][min(rnd, 2)]
+        # smallest first; the thorough tier goes on to 48 / 64 input samples and 128 / 192 output samples
+        hi_in = [9, 16, 33][min(rnd, 2)] if rnd < 120 else (48 if rnd < 240 else 64)
+        hi_out = [24, 48, 96][min(rnd, 2)] if rnd < 120 else (128 if rnd < 240 else 192)
         for icls in IN_CLASSES:
             for ocls in OUT_CLASSES:
                 for method in METHODS:
@@ -516,7 +627,7 @@ def wl_fixed(ctx, route):
                             k += 1
                             if not ctx.mine(k):
                                 continue
-                            if field == 'point' and icls.startswith('line'):
+                            if field == 'point' and (icls.startswith('line') or icls.startswith('extreme')):
                                 continue               # tilt / slope laws need two samples on each axis; M1 covers lines
                             done += 1
                             if done % 64 == 0:
@@ -530,11 +641,26 @@ def wl_fixed(ctx, route):
 
 
 RATIOS = [0.2, 0.25, 1 / 3, 0.5, 1.0, 1.5, 2.0, 3.0]
+SLOPE_TOL = {False: 1e-9, True: 2e-3}     # rad; float32 round-off of the fitted slope measured <= 1.5e-6 over 18 000 cases
+
+
+def precision_class(v):
+    """(configured precision, data precision) of a case from its variant number: 3 in 4 cases float64 / float64, the
+    rest float32 / float32, float32 configuration with float64 data, float64 configuration with float32 data."""
+    c = (v // 16) % 12
+    return {0: (32, 32), 1: (32, 64), 2: (64, 32)}.get(c, (64, 64))
+
+
+def to_bits(a, dbits):
+    if dbits == 32:
+        return a.astype(np.complex64 if np.iscomplexobj(a) else np.float32)
+    return a
 
 
 def _fixed_focus_case(ctx, P, rng, icls, ocls, method, scls, field, hi_in, hi_out, k):
     global CUR
     from prysm.coordinates import make_xy_grid
+    from ..util import precision
     k = int(rng.integers(1 << 30))                        # per-case variant number (decoupled from the class loops)
     wvl, efl, dx = physical(rng)
     shp = draw_shape(rng, icls, 4, hi_in)
@@ -549,12 +675,16 @@ def _fixed_focus_case(ctx, P, rng, icls, ocls, method, scls, field, hi_in, hi_ou
         shift = (s[0] * odx, s[1] * odx)
         desc = {'wl': 'fixed', 'route': 'focus', 'class': cls, 'shape': shp, 'samples': samples, 'method': method, 'wavelength': wvl,
                 'efl': efl, 'dx': dx, 'odx': odx, 'shift_samples': s, 'seed': seed, 'api': 'Wavefront' if use_wf else 'function'}
+        bits, dbits = precision_class(k)
+        desc.update(precision=bits, data_bits=dbits)
+        desc['class'] = cls + (f':p{bits}/d{dbits}' if (bits, dbits) != (64, 64) else '')
         CUR = desc
         ctx.case(desc)
-        a = field_array(seed, shp, k)
+        a = field_array(seed, shp, k, method)
+        a = to_bits(a, dbits) if a.dtype.kind in 'fc' else a
         key = fixed_key('focus', method, shp, samples, scls != '0')
         arg_samples = samples[0] if (samples[0] == samples[1] and (k // 2) % 4 == 1) else samples
-        with ctx.guard(_raise_key(method, key, scls), desc, what=_raise_what(method, scls)):
+        with precision(bits), ctx.guard(_raise_key(method, key, scls), desc, what=_raise_what(method, scls)):
             if use_wf:
                 P.Wavefront(a, wvl, dx).focus_fixed_sampling(efl, odx, arg_samples, shift=shift, method=method)
             else:
@@ -589,13 +719,18 @@ def _fixed_focus_case(ctx, P, rng, icls, ocls, method, scls, field, hi_in, hi_ou
     desc = {'wl': 'fixed', 'route': 'focus', 'class': cls, 'shape': shp, 'samples': samples, 'method': method, 'wavelength': wvl,
             'efl': efl, 'dx': dx, 'odx': odx, 'D': Dw, 'ratio': r, 'waves': (kx, ky), 'spot_samples': (mx, my), 'shift_samples': s,
             'api': 'Wavefront' if use_wf else 'function'}
+    bits, dbits = precision_class(k)
+    desc.update(precision=bits, data_bits=dbits)
+    desc['class'] = cls + (f':p{bits}/d{dbits}' if (bits, dbits) != (64, 64) else '')
     CUR = desc
     ctx.case(desc)
     x, y = make_xy_grid(shp, dx=dx)
     key = fixed_key('focus', method, shp, samples, scls != '0')
-    with ctx.guard(_raise_key(method, key, scls), desc, what=_raise_what(method, scls)):
+    with precision(bits), ctx.guard(_raise_key(method, key, scls), desc, what=_raise_what(method, scls)):
         opd = (kx * x + ky * y) / Dw * wvl * 1e3
-        wf = P.Wavefront.from_amp_and_phase(np.ones(shp), opd, wvl, dx)
+        with precision(64):
+            wf = P.Wavefront.from_amp_and_phase(np.ones(shp), opd, wvl, dx)
+        wf.data = to_bits(wf.data, dbits)
         if use_wf:
             out = wf.focus_fixed_sampling(efl, odx, samples, shift=shift, method=method)
             data = out.data
@@ -627,7 +762,7 @@ def _fixed_focus_case(ctx, P, rng, icls, ocls, method, scls, field, hi_in, hi_ou
         if gx is not None and ok:
             ex_phys = D.tilt_displacement(kx, Dw, wvl, efl) + shift[0]
             ey_phys = D.tilt_displacement(ky, Dw, wvl, efl) + shift[1]
-            tol = 1e-9 * odx * max(samples)
+            tol = (1e-9 if bits == 64 else 1e-4) * odx * max(samples)      # the reported grid is float32 in the float32 configuration
             ctx.require('tilt->displacement.fixed', abs(float(gx[iy, ix]) - ex_phys) <= tol and abs(float(gy[iy, ix]) - ey_phys) <= tol,
                         key + '/reported-coordinates', 'Wavefront.focus_fixed_sampling: reported x/y at the peak are not k*lambda*f/D + shift',
                         desc, got=(float(gx[iy, ix]), float(gy[iy, ix])), expected=(ex_phys, ey_phys))
@@ -648,6 +783,7 @@ def _raise_key(method, key, scls):
 
 def _fixed_unfocus_case(ctx, P, rng, icls, ocls, method, scls, field, hi_in, hi_out, k):
     global CUR
+    from ..util import precision
     k = int(rng.integers(1 << 30))                        # per-case variant number
     wvl, efl, dx = physical(rng)                          # dx: requested pupil spacing (mm)
     # here the *input* is the focal-plane array (8..hi_out samples), the *output* the pupil (4..hi_in samples)
@@ -663,12 +799,16 @@ def _fixed_unfocus_case(ctx, P, rng, icls, ocls, method, scls, field, hi_in, hi_
     desc = {'wl': 'fixed', 'route': 'unfocus', 'class': cls, 'shape': fshape, 'samples': pshape, 'method': method, 'wavelength': wvl,
             'efl': efl, 'focal_dx': fdx, 'pupil_dx': dx, 'shift_samples': s, 'seed': seed, 'api': 'Wavefront' if use_wf else 'function'}
     key = fixed_key('unfocus', method, fshape, pshape, scls != '0')
+    bits, dbits = precision_class(k)
+    desc.update(precision=bits, data_bits=dbits)
+    desc['class'] = cls + (f':p{bits}/d{dbits}' if (bits, dbits) != (64, 64) else '')
     if field == 'random':
         CUR = desc
         ctx.case(desc)
-        a = field_array(seed, fshape, k)
+        a = field_array(seed, fshape, k, method)
+        a = to_bits(a, dbits) if a.dtype.kind in 'fc' else a
         arg_samples = pshape[0] if (pshape[0] == pshape[1] and (k // 2) % 4 == 1) else pshape
-        with ctx.guard(_raise_key(method, key, scls), desc, what=_raise_what(method, scls)):
+        with precision(bits), ctx.guard(_raise_key(method, key, scls), desc, what=_raise_what(method, scls)):
             if use_wf:
                 P.Wavefront(a, wvl, fdx, space='psf').unfocus_fixed_sampling(efl, dx, arg_samples, shift=shift, method=method)
             else:
@@ -686,9 +826,9 @@ def _fixed_unfocus_case(ctx, P, rng, icls, ocls, method, scls, field, hi_in, hi_
     desc = dict(desc, spot_samples=(mx, my))
     CUR = desc
     ctx.case(desc)
-    a = np.zeros(fshape, dtype=complex)
+    a = np.zeros(fshape, dtype=np.complex64 if dbits == 32 else complex)
     a[fshape[0] // 2 + my, fshape[1] // 2 + mx] = 1.0
-    with ctx.guard(_raise_key(method, key, scls), desc, what=_raise_what(method, scls)):
+    with precision(bits), ctx.guard(_raise_key(method, key, scls), desc, what=_raise_what(method, scls)):
         if use_wf:
             out = P.Wavefront(a, wvl, fdx, space='psf').unfocus_fixed_sampling(efl, dx, pshape, shift=shift, method=method).data
         else:
@@ -700,11 +840,249 @@ def _fixed_unfocus_case(ctx, P, rng, icls, ocls, method, scls, field, hi_in, hi_
             return
         sx_ref = 2 * math.pi * (mx * fdx) * dx / (wvl * efl)
         sy_ref = 2 * math.pi * (my * fdx) * dx / (wvl * efl)
-        ok = _wrapdiff(_slope(out, 1), sx_ref) <= 1e-9 and _wrapdiff(_slope(out, 0), sy_ref) <= 1e-9
+        stol = SLOPE_TOL[bits == 32 or dbits == 32]
+        ok = _wrapdiff(_slope(out, 1), sx_ref) <= stol and _wrapdiff(_slope(out, 0), sy_ref) <= stol
         g = geom_label('unfocus', method, fshape, pshape)
         ctx.require('spot->tilt.fixed', ok, key,
                     _what('unfocus', method, g) + ' [a displaced focal spot does not return the pupil tilt 2*pi*X0/(lambda f)]',
                     desc, slope_xy=(_slope(out, 1), _slope(out, 0)), expected=(sx_ref, sy_ref))
+
+
+# ------------------------------------------------------------------------------------------ class B: histories
+def _cfield(seed, shape, bits):
+    a = cnormal(np.random.default_rng(seed), shape)
+    return a.astype(np.complex64) if bits == 32 else a
+
+
+def wl_history(ctx):
+    """Histories on the shared executors through the fixed-sampling wrappers at FIXED array sizes: focus / unfocus (function
+    and Wavefront form) and to_fpm_and_back, shifted and unshifted, every step with another wavelength / focal length /
+    spacing / shift (so the basis caches miss while anything keyed on the array sizes alone hits), both methods, precision
+    switches 32 <-> 64 and mixed dtypes.  Every step is judged by the contract against the physical model, which knows
+    nothing of the process history; the last step is always a float64 call (the 32 -> 64 switch at full tolerance)."""
+    global CUR
+    from prysm import propagation as P
+    from prysm.conf import config
+    n = ctx.pick(400, 120000)
+    maxlen = ctx.pick(6, 14)
+    for k in range(n):
+        if not ctx.mine(k):
+            continue
+        rng = case_rng(ctx, 7, k)
+        icls = IN_CLASSES[int(rng.integers(len(IN_CLASSES)))] if rng.random() < 0.5 else ('sq:e', 'sq:o')[int(rng.integers(2))]
+        ocls = OUT_CLASSES[int(rng.integers(len(OUT_CLASSES)))] if rng.random() < 0.5 else ('sq:e', 'sq:o')[int(rng.integers(2))]
+        shp = draw_shape(rng, icls, 4, ctx.pick(10, 24))          # pupil array
+        smp = draw_shape(rng, ocls, 8, ctx.pick(20, 48))          # focal array
+        L = int(rng.integers(3, maxlen + 1))
+        steps = []
+        for j in range(L):
+            r = rng.random()
+            if r < 0.12 and j < L - 1:
+                steps.append((('p32', 'p64')[int(rng.integers(2))],))
+                continue
+            kind = ('focus', 'focus-wf', 'unfocus', 'unfocus-wf', 'tfb', 'tfb-wf')[int(rng.integers(6))]
+            method = ('mdft', 'mdft', 'czt')[int(rng.integers(3))]
+            scls = SHIFTS[int(rng.integers(3))]
+            steps.append((kind, method, scls, int(rng.integers(2**31 - 1)), bool(rng.random() < 0.2)))
+        desc = {'wl': 'history', 'class': f'history:{icls}->{ocls}:len{L}', 'shape': shp, 'samples': smp,
+                'steps': [list(s_) for s_ in steps], 'k': k}
+        ctx.case(desc)
+        _clear_caches()
+        config.precision = 64
+        try:
+            for j, st in enumerate(steps):
+                ctx.observe('history.ops')
+                if st[0] in ('p32', 'p64'):
+                    config.precision = int(st[0][1:])
+                    continue
+                kind, method, scls, seed, mixed = st
+                if j == L - 1:
+                    config.precision = 64                  # the judged last step is a float64 call
+                    mixed = False
+                bits = conf_bits()
+                dbits = (96 - bits) if mixed else bits
+                r2 = np.random.default_rng(seed)
+                wvl, efl, dx = physical(r2)
+                s_ = draw_shift(r2, scls)
+                CUR = dict(desc, step=j, step_kind=kind, method=method, shift_samples=s_, precision=bits, data_bits=dbits)
+                key = fixed_key('focus' if not kind.startswith('unfocus') else 'unfocus', method, shp if not kind.startswith('unfocus') else smp,
+                                smp if not kind.startswith('unfocus') else shp, scls != '0')
+                with ctx.guard(_raise_key(method, key, scls), CUR, what=_raise_what(method, scls)):
+                    if kind.startswith('focus'):
+                        odx = wvl * efl / (max(shp) * dx) * logu(r2, 0.2, 3.0)
+                        shift = (s_[0] * odx, s_[1] * odx)
+                        a = _cfield(seed, shp, dbits)
+                        if kind == 'focus':
+                            P.focus_fixed_sampling(a, dx, efl, wvl, odx, smp, shift=shift, method=method)
+                        else:
+                            P.Wavefront(a, wvl, dx).focus_fixed_sampling(efl, odx, smp, shift=shift, method=method)
+                    elif kind.startswith('unfocus'):
+                        fdx = wvl * efl / (max(shp) * dx) * logu(r2, 0.2, 3.0)
+                        shift = (s_[0] * dx, s_[1] * dx)
+                        a = _cfield(seed, smp, dbits)
+                        if kind == 'unfocus':
+                            P.unfocus_fixed_sampling(a, fdx, efl, wvl, dx, shp, shift=shift, method=method)
+                        else:
+                            P.Wavefront(a, wvl, fdx, space='psf').unfocus_fixed_sampling(efl, dx, shp, shift=shift, method=method)
+                    else:
+                        fdx = wvl * efl / (max(shp) * dx) * logu(r2, 0.2, 3.0)
+                        shift = (s_[0] * fdx, s_[1] * fdx)
+                        a = _cfield(seed, shp, dbits)
+                        mask = r2.random(smp) if seed % 2 else cnormal(r2, smp)
+                        if kind == 'tfb':
+                            P.to_fpm_and_back(a, dx, efl, wvl, mask, fdx, shift=shift, method=method)
+                        else:
+                            P.Wavefront(a, wvl, dx).to_fpm_and_back(efl, mask, fdx, method=method, shift=shift)
+        finally:
+            config.precision = 64
+            CUR = None
+    _clear_caches()
+
+
+# ------------------------------------------------------------------------------------------ class A: repeat / aliasing
+def wl_repeat(ctx):
+    """The same call made again with the *same argument objects*: the shift as tuple / list / float64, float32, int ndarray /
+    numpy scalars, the sample counts as int / tuple / numpy integers, the data array in six memory layouts; function form,
+    Wavefront form and to_fpm_and_back with the same shift object.  Laws (c01.repeat_laws): the later call reproduces the
+    first; the container / layout is not part of the answer.  On top, the statement's own corollary on the LATER call: a
+    tilted uniform pupil peaks at k*lambda*f/D + shift, with the shift the caller put into the container."""
+    global CUR
+    from prysm import propagation as P
+    from prysm.coordinates import make_xy_grid
+    from ..util import precision
+    from .c01 import repeat_laws
+    n = ctx.pick(400, 200000)
+    for k in range(n):
+        if not ctx.mine(k):
+            continue
+        rng = case_rng(ctx, 8, k)
+        route = ('focus', 'unfocus', 'tfb', 'tilt')[int(rng.integers(4))]
+        method = ('mdft', 'czt')[int(rng.integers(2))]
+        bits = 32 if rng.random() < 0.15 else 64
+        dbits = bits if rng.random() < 0.8 else (96 - bits)
+        single = bits == 32 or dbits == 32
+        lay = LAYOUTS[int(rng.integers(len(LAYOUTS)))]
+        hkind = SHIFT_CONTAINERS[int(rng.integers(len(SHIFT_CONTAINERS)))]
+        scls = ('int', 'frac')[int(rng.integers(2))]
+        wvl, efl, dx = physical(rng)
+        icls = ('sq:e', 'sq:o', 'nonsq:eo', 'nonsq:oe')[int(rng.integers(4))]
+        shp = draw_shape(rng, icls, 4, ctx.pick(9, 24))
+        smp = draw_shape(rng, OUT_CLASSES[int(rng.integers(3))], 8, ctx.pick(16, 48))
+        skind = ('tuple', 'np-ints', 'int')[int(rng.integers(3))] if smp[0] == smp[1] else ('tuple', 'np-ints')[int(rng.integers(2))]
+        seed = int(rng.integers(2**31 - 1))
+        if route == 'tilt':
+            # uniform pupil, integer tilt in output samples, integer shift in samples handed over in a float64-exact container
+            hkind = ('tuple', 'list', 'nd-f64', 'np-scalars')[int(rng.integers(4))]
+            method = 'mdft' if rng.random() < 0.7 else 'czt'
+            bits = dbits = 64
+            single = False
+            Nd = shp[1]
+            rs = [r_ for r_ in (0.25, 0.5, 1.0) if math.floor(0.9 * Nd / r_) >= 10]      # r = 0.25 always qualifies (Nd >= 4)
+            r = rs[int(rng.integers(len(rs)))]
+            smax = min(ctx.pick(16, 32), math.floor(0.9 * Nd / r))       # window narrower than one alias period (= Nd / r samples)
+            smp = (smax, smax) if smp[0] == smp[1] else (smax, max(8, smax - 1 - int(rng.integers(0, 3))))
+            skind = 'tuple'
+            odx = r * wvl * efl / (Nd * dx)
+            half = min(smp) // 2 - 2
+            mx = int(rng.integers(-min(half, int(0.4 * Nd / r)), min(half, int(0.4 * Nd / r)) + 1))
+            sxi = int(rng.integers(-(half - abs(mx)), (half - abs(mx)) + 1)) if half - abs(mx) > 0 else 0
+            syi = int(rng.integers(-half, half + 1))
+            if sxi == 0 and syi == 0:
+                syi = 1
+            shift_vals = (sxi * odx, syi * odx)
+        else:
+            odx = None
+            shift_vals = None
+        Sc = {'tuple': smp, 'np-ints': (np.int64(smp[0]), np.int32(smp[1])), 'int': int(smp[0])}[skind]
+        conts = {'wavefunction': lay, 'output_samples': skind, 'shift': hkind}
+        desc = {'wl': 'repeat', 'route': route, 'method': method, 'shape': shp, 'samples': smp, 'wavelength': wvl, 'efl': efl, 'dx': dx,
+                'containers': conts, 'precision': bits, 'data_bits': dbits, 'seed': seed,
+                'class': f'repeat:{route}:{method}:{icls}:samples={skind}:shift={hkind}/{scls}:{lay}:p{bits}/d{dbits}'}
+        CUR = desc
+        ctx.case(desc)
+        try:
+            with precision(bits):
+                if route in ('focus', 'unfocus', 'tfb'):
+                    if route == 'unfocus':
+                        in_shape, out_shape = smp, shp
+                        idx = wvl * efl / (max(shp) * dx) * logu(rng, 0.2, 3.0)      # focal spacing (um)
+                        odx = dx                                                     # pupil spacing (mm)
+                        Sc2 = {'tuple': shp, 'np-ints': (np.int64(shp[0]), np.int32(shp[1])), 'int': int(shp[0])}[skind if shp[0] == shp[1] else 'tuple']
+                        conts['output_samples'] = skind if shp[0] == shp[1] else 'tuple'
+                    else:
+                        in_shape, out_shape = shp, smp
+                        idx = dx
+                        odx = wvl * efl / (max(shp) * dx) * logu(rng, 0.2, 3.0)
+                        Sc2 = Sc
+                    s_ = draw_shift(rng, scls)
+                    phys = (s_[0] * odx, s_[1] * odx)
+                    if hkind == 'nd-int':
+                        phys = (float(int(rng.integers(1, 4)) * (1 if rng.random() < 0.5 else -1)), float(int(rng.integers(0, 3))))
+                        if abs(phys[0] / odx) > 6 or abs(phys[1] / odx) > 6:        # keep the window near the field
+                            hkind = conts['shift'] = 'nd-f64'
+                            phys = (s_[0] * odx, s_[1] * odx)
+                    shc = make_container(hkind, phys)
+                    plain_shift = container_values(shc)
+                    a0 = _cfield(seed, in_shape, dbits)
+                    a = relayout(a0, lay)
+                    desc.update(shift=plain_shift, input_dx=idx, output_dx=odx)
+                    if route == 'tfb':
+                        mask = np.random.default_rng(seed + 1).random(out_shape)
+                        objs = {'wavefunction': a, 'shift': shc}
+
+                        def call(wavefunction, shift):
+                            return P.to_fpm_and_back(wavefunction, idx, efl, wvl, mask, odx, shift=shift, method=method)
+
+                        def wf_form(wavefunction, shift):
+                            return P.Wavefront(wavefunction, wvl, idx).to_fpm_and_back(efl, mask, odx, method=method, shift=shift).data
+                        base = {'wavefunction': lambda: np.array(a0, copy=True), 'shift': lambda: plain_shift}
+                        label = f'to_fpm_and_back/{method}'
+                    else:
+                        func = P.focus_fixed_sampling if route == 'focus' else P.unfocus_fixed_sampling
+                        objs = {'wavefunction': a, 'output_samples': Sc2, 'shift': shc}
+
+                        def call(wavefunction, output_samples, shift):
+                            return func(wavefunction, idx, efl, wvl, odx, output_samples, shift=shift, method=method)
+
+                        def wf_form(wavefunction, output_samples, shift):
+                            w = P.Wavefront(wavefunction, wvl, idx, space='pupil' if route == 'focus' else 'psf')
+                            g = w.focus_fixed_sampling if route == 'focus' else w.unfocus_fixed_sampling
+                            return g(efl, odx, output_samples, shift=shift, method=method).data
+                        base = {'wavefunction': lambda: np.array(a0, copy=True), 'output_samples': lambda: tuple(out_shape), 'shift': lambda: plain_shift}
+                        label = f'{route}_fixed_sampling/{method}'
+
+                    def plain(over, base=base, call=call):
+                        return call(**{k_: (over[k_] if k_ in over else base[k_]()) for k_ in base})
+                    if method == 'czt' and route == 'tfb':
+                        # to_fpm_and_back(method=czt, shift != 0) is C05's ledgered finding; repetition is still required of it
+                        pass
+                    repeat_laws(ctx, label, call, objs, plain, desc, single, low_precision(shc), [('Wavefront method form', wf_form)], prefix='C03')
+                else:
+                    x, y = make_xy_grid(shp, dx=dx)
+                    Dw = Nd * dx
+                    kx = mx * r
+                    opd = (kx * x) / Dw * wvl * 1e3
+                    wf = P.Wavefront.from_amp_and_phase(np.ones(shp), opd, wvl, dx)
+                    a = relayout(wf.data, lay)
+                    shc = make_container(hkind, shift_vals)
+                    desc.update(shift=shift_vals, output_dx=odx, spot_samples=(mx, 0), shift_samples=(sxi, syi))
+                    key = fixed_key('focus', method, shp, smp, True)
+                    with ctx.guard(_raise_key(method, key, 'int'), desc, what=_raise_what(method, 'int')):
+                        P.focus_fixed_sampling(a, dx, efl, wvl, odx, smp, shift=shc, method=method)
+                        P.Wavefront(a, wvl, dx).focus_fixed_sampling(efl, odx, smp, shift=shc, method=method)
+                        P.to_fpm_and_back(a, dx, efl, wvl, np.ones(smp), odx, shift=shc, method='mdft')
+                        data = np.array(P.focus_fixed_sampling(a, dx, efl, wvl, odx, smp, shift=shc, method=method), copy=True)
+                        iy, ix = _peak(data)
+                        ey_i, ex_i = smp[0] // 2 + syi, smp[1] // 2 + mx + sxi
+                        g = geom_label('focus', method, shp, smp)
+                        ctx.require('shift-translates-image', (iy, ix) == (ey_i, ex_i),
+                                    f'C03/repeat/focus_fixed_sampling/{method}/later-call-with-the-same-shift-object/image-not-at-k*lambda*f/D+shift',
+                                    _what('focus', method, g) + ' [fourth call with the same shift object: the spot is not at k*lambda*f/D + the shift '
+                                    'the caller put into the container]', desc, peak_index=(iy, ix), expected_index=(ey_i, ex_i),
+                                    shift_object_now=[float(v) for v in shc])
+        finally:
+            CUR = None
+    _clear_caches()
 
 
 def replay(ctx, rec):
